@@ -1257,6 +1257,10 @@ class Interp:
             raise Raised("AttributeError", node, fr.fi, f"class {o.fq} has no attribute {attr}")
         if isinstance(o, SuperV):
             m = self.prog.lookup_method(o.obj.cls, attr, after=o.after)
+            if m is None and self.world is not None and hasattr(self.world, "super_getattr"):
+                r = self.world.super_getattr(self, o.obj, attr, node)
+                if r is not None:
+                    return r
             if m is None:
                 if attr in ("__init__", "__init_subclass__"):
                     return _Const(None)  # object.__init__
@@ -1313,6 +1317,11 @@ class Interp:
             r = self.world.getattr(self, o, attr, node)
             if r is not NotImplemented:
                 return r
+        if isinstance(o, (dict, list, tuple, set, frozenset, str, int, float, bool, type(None))) \
+                and not hasattr(type(o), attr):
+            # python itself would raise here
+            raise Raised("AttributeError", node, fr.fi if fr else None,
+                         f"'{type(o).__name__}' object has no attribute '{attr}'")
         raise self.err(node, f"attribute {attr} of {type(o).__name__}")
 
     def eval_class_attr(self, ca, owner):
@@ -1636,6 +1645,10 @@ class Interp:
             if isinstance(v, TV):
                 self.event("symbolic-len", n, "len() of a symbolic value")
                 raise self.err(n, "len of a symbolic value")
+            if self.world is not None and hasattr(self.world, "length"):
+                r = self.world.length(self, v, n)
+                if r is not None:
+                    return r
             raise self.err(n, f"len of {type(v).__name__}")
         if name == "any" or name == "all":
             v = args[0]
